@@ -38,10 +38,14 @@ static void run(Src &s) {
   // active rules
   bool r_owner = g_root && s.chance(45), r_group = g_root && s.chance(40), r_nolink = s.chance(40);
   if (!r_owner && !r_group && !r_nolink) (g_root ? r_owner : r_nolink) = true;
-  uid_t req_uid = s.chance(50) ? 0 : 4242;
-  gid_t req_gid = s.chance(50) ? 0 : 4343;
+  // required ids: our own (0 as root), a small foreign one, one above INT_MAX (uid_t / gid_t are unsigned 32 bit)
+  static const uid_t UIDS[3] = {0, 4242, 3000000000u};
+  static const gid_t GIDS[3] = {0, 4343, 4000000000u};
+  uid_t req_uid = UIDS[s.weighted({45, 40, 15})];
+  gid_t req_gid = GIDS[s.weighted({45, 40, 15})];
   uid_t other_uid = req_uid == 0 ? 4242 : (s.chance(50) ? 0 : 5555);
   gid_t other_gid = req_gid == 0 ? 4343 : (s.chance(50) ? 0 : 5656);
+  if (req_uid > 0x7fffffffu || req_gid > 0x7fffffffu) g_case.tag("required_id_above_int_max");
   // assignment per consulted file
   std::vector<std::set<int>> viol(cons.size());  // violated rule codes
   for (size_t i = 0; i < cons.size(); i++) {
@@ -50,8 +54,8 @@ static void run(Src &s) {
     bool own_ok = !s.chance(22), grp_ok = !s.chance(22);
     if (!g_root) own_ok = grp_ok = true;
     if (g_root) {
-      f->uid = (int)(own_ok ? req_uid : other_uid);
-      f->gid = (int)(grp_ok ? req_gid : other_gid);
+      f->uid = (long long)(own_ok ? req_uid : other_uid);
+      f->gid = (long long)(grp_ok ? req_gid : other_gid);
     }
     bool is_link = f->kind == F_DEVNULL || f->kind == F_LINK_REGULAR;
     if (r_nolink && is_link) viol[i].insert(ECONF_ERROR_FILE_IS_SYM_LINK);
